@@ -513,10 +513,15 @@ class CompilerPassGenerateCode(CompilerPass):
                 calling_arg = calling_node.args[i]._ndata.result
                 if arg_sym.is_overwritten or (
                     isinstance(calling_arg, IC10Register)
-                    and any(node.parent_of(w) for w in calling_arg.nodes_writing)
+                    and any(
+                        isinstance(w.scope(), nodes.FunctionDef)
+                        and w.scope() is not calling_node.scope()
+                        for w in calling_arg.nodes_writing
+                    )
                 ):
                     # need to copy argument to a register, as it is overwritten in the function
-                    # (or the function assigns the global variable that was passed)
+                    # (or the variable that was passed is a global that this or another function,
+                    # which the body may call, assigns)
                     arg_sym.code_expr = self.get_register_name()
                     data.add(IC10("move", [calling_arg], arg_sym))
                 else:
